@@ -56,9 +56,10 @@ var (
 	curMu   sync.Mutex
 	curRows []rowSpec
 	curMat  bool
-	// curRogue: the scenario's query has a range aggregation (the stages that index buckets by timestamp); only
-	// there the out-of-window row is offered as an environment choice, to keep the quick tier inside its budget
+	// curRogue: the scenario offers the out-of-window row as an environment choice (cfg.Rogue)
 	curRogue bool
+	// rogueTaken: the out-of-window row was served in the current execution
+	rogueTaken bool
 )
 
 func (drv) Open(string) (driver.Conn, error) { return &conn{}, nil }
@@ -99,6 +100,7 @@ func (r *rows) Next(dest []driver.Value) error {
 	// channel on every schedule)
 	if curRogue && r.i == len(r.rs)/2 && sched.Choose("row-out-of-window", 2, true) == 1 {
 		x.ts += int64(1e15)
+		rogueTaken = true
 	}
 	r.i++
 	dest[0] = x.fp
@@ -136,10 +138,17 @@ type cfg struct {
 	StepMs int64
 	Cancel bool // a "client goes away" thread cancels the request context at an arbitrary moment
 	Series int
+	// Rogue: a disobedient database — the environment may return the middle row far outside the requested window
+	// (fault choice "row-out-of-window"): the aggregation stage that indexes its buckets with the timestamp panics
+	Rogue bool
 }
 
 func (c cfg) Name() string {
-	return fmt.Sprintf("%s|rows%d|limit%d|step%d|cancel%v|series%d", c.Query, c.Rows, c.Limit, c.StepMs, c.Cancel, c.Series)
+	n := fmt.Sprintf("%s|rows%d|limit%d|step%d|cancel%v|series%d", c.Query, c.Rows, c.Limit, c.StepMs, c.Cancel, c.Series)
+	if c.Rogue {
+		n += "|rogue"
+	}
+	return n
 }
 
 type scenario struct {
@@ -157,6 +166,7 @@ type obs struct {
 	sawErr       string
 	closed       bool
 	consumerDone bool
+	rogueRow     bool
 }
 
 var db *sql.DB
@@ -184,7 +194,8 @@ func (s *scenario) Run() any {
 		rs[i] = rowSpec{fp: uint64(100 + ser), labels: map[string]string{"a": "b", "s": fmt.Sprint(ser)},
 			msg: fmt.Sprintf(`{"x":"%d","lvl":"e"} k=v n=%d`, i%3, i), val: float64(i%5 + 1), ts: base + int64(i%7)*1e9}
 	}
-	curRows, curMat, curRogue = rs, matrix, strings.Contains(c.Query, "[")
+	curRows, curMat, curRogue = rs, matrix, c.Rogue
+	rogueTaken = false
 	ctx, cancel := vctx.WithCancel(context.Background())
 	pctx := tables.PopulateTableNames(&shared.PlannerContext{
 		From: time.Unix(1700000000, 0), To: time.Unix(1700000010, 0), Limit: c.Limit, Ctx: ctx, CancelCtx: cancel,
@@ -224,6 +235,9 @@ func (s *scenario) Run() any {
 
 func (s *scenario) Check(x any, res *sched.Result) (string, []sched.Finding) {
 	o, _ := x.(*obs)
+	if o != nil {
+		o.rogueRow = rogueTaken
+	}
 	if o == nil {
 		panic(sched.HarnessError{Msg: "driver thread did not complete: " + res.Failure + " " + strings.Join(res.Trace, "\n")})
 	}
@@ -248,6 +262,11 @@ func (s *scenario) Check(x any, res *sched.Result) (string, []sched.Finding) {
 	case res.Failure == "deadlock":
 		if !o.consumerDone {
 			fs = append(fs, sched.Finding{Class: "request_blocked_forever", What: "consumer never saw the end of the result: " + site(res.Unfinished)})
+		} else if o.rogueRow {
+			// the database returned a row outside the window in this execution (the aggregation stage panics and
+			// is recovered): its own explanation — the recover path does not drain the stage's upstream — kept
+			// apart from leaks after an ordinary stage error
+			fs = append(fs, sched.Finding{Class: "goroutine_leaked_after_row_out_of_window", What: "after the request ended (a row outside the window made a stage panic) these goroutines are parked forever: " + site(res.Unfinished)})
 		} else {
 			fs = append(fs, sched.Finding{Class: "goroutine_leaked", What: "after the request ended these goroutines are parked forever: " + site(res.Unfinished)})
 		}
@@ -290,6 +309,18 @@ func scenarios(thorough bool) []sched.Scenario {
 			for _, limit := range []int64{1, 100} {
 				for _, cancel := range []bool{false, true} {
 					out = append(out, &scenario{c: cfg{Query: q, Rows: rows, Limit: limit, StepMs: 5000, Cancel: cancel, Series: 2}})
+				}
+			}
+		}
+		// disobedient database: scenarios of their own (explored and reported apart from the obedient ones), for the
+		// queries with a range aggregation; 101 rows = the stage panics while the scanner still has a batch to send
+		if strings.Contains(q, "[") {
+			for _, rows := range []int{3, 101} {
+				for _, cancel := range []bool{false, true} {
+					if rows == 3 && cancel && !thorough {
+						continue
+					}
+					out = append(out, &scenario{c: cfg{Query: q, Rows: rows, Limit: 100, StepMs: 5000, Cancel: cancel, Series: 2, Rogue: true}})
 				}
 			}
 		}
@@ -339,6 +370,15 @@ func main() {
 	if !r.Thorough() {
 		scs = scenarios(false)
 	}
+	if only := os.Getenv("C12B_ONLY"); only != "" { // debugging aid: scenarios whose name contains the text
+		var f []sched.Scenario
+		for _, s := range scs {
+			if strings.Contains(s.Name(), only) {
+				f = append(f, s)
+			}
+		}
+		scs = f
+	}
 	passes := []struct {
 		name string
 		b    sched.Bounds
@@ -352,6 +392,7 @@ func main() {
 		}{"sync-points P<=2 F<=1", sched.Bounds{Preempt: 2, Faults: 1, Horizon: 20000, NoYields: true}})
 	}
 	var report []map[string]any
+	var allViol []sched.Replay
 	total := &sched.Stats{}
 	for _, p := range passes {
 		if time.Now().After(r.Deadline) {
@@ -359,7 +400,24 @@ func main() {
 			continue
 		}
 		t0 := time.Now()
-		st, ex, left := sched.Explore(scs, p.b, runtime.NumCPU(), r.Deadline, 100000)
+		// obedient and disobedient database scenarios are explored as two batches: sched keeps at most 100 findings
+		// per batch, and a flood from one family must not crowd out a finding of the other
+		var obedient, rogue []sched.Scenario
+		for _, s := range scs {
+			if strings.HasSuffix(s.Name(), "|rogue") {
+				rogue = append(rogue, s)
+			} else {
+				obedient = append(obedient, s)
+			}
+		}
+		st, ex, left := sched.Explore(obedient, p.b, runtime.NumCPU(), r.Deadline, 20)
+		allViol = append(allViol, st.Violations...)
+		if len(rogue) > 0 {
+			st2, ex2, left2 := sched.Explore(rogue, p.b, runtime.NumCPU(), r.Deadline, 2000)
+			allViol = append(allViol, st2.Violations...)
+			st.Merge(st2)
+			ex, left = ex && ex2, left+left2
+		}
 		report = append(report, map[string]any{"pass": p.name, "bounds": p.b, "completed": ex, "executions": st.Executions, "subtrees_left": left, "wall_s": time.Since(t0).Seconds(), "distinct_outcomes": len(st.Outcomes)})
 		fmt.Printf("[C12b] pass %-24s executions=%-8d outcomes=%-3d completed=%v left=%d %.1fs\n", p.name, st.Executions, len(st.Outcomes), ex, left, time.Since(t0).Seconds())
 		if !ex {
@@ -380,11 +438,11 @@ func main() {
 	}
 	r.Extra["c12b_passes"] = report
 	r.Extra["c12b_scenarios"] = len(scs)
-	r.Sample(map[string]any{"c12b_scenario": scs[2].Name()})
-	for _, v := range total.Violations {
+	r.Sample(map[string]any{"c12b_scenario": scs[len(scs)/2].Name()})
+	for _, v := range allViol {
 		cls := v.Class
 		// the parking site names the defect; keep it in the class so that different leaks are different findings
-		if i := strings.Index(v.What, ": "); i >= 0 && (cls == "goroutine_leaked" || cls == "request_blocked_forever") {
+		if i := strings.Index(v.What, ": "); i >= 0 && (strings.HasPrefix(cls, "goroutine_leaked") || cls == "request_blocked_forever") {
 			cls += ":" + strings.ReplaceAll(v.What[i+2:], " ", "")
 		}
 		r.Violate(cls, v.Scn+": "+v.What, v)
